@@ -570,8 +570,8 @@ pub fn build() -> Property {
         ],
         phases: vec![
             Phase { name: "product_exhaustive", kind: PhaseKind::Enum { n: (1, 1), exhaustive: (true, true), f: Box::new(product_case) }, threads: 1 },
-            Phase { name: "random_sequences", kind: PhaseKind::Gen { cases: (6000, 500000), tape_len: 4000, f: Box::new(random_case) }, threads: 16 },
-            Phase { name: "cli_sequences", kind: PhaseKind::Gen { cases: (400, 4000), tape_len: 1500, f: Box::new(cli_case) }, threads: 16 },
+            Phase { name: "random_sequences", kind: PhaseKind::Gen { cases: (12000, 400000), tape_len: 4000, f: Box::new(random_case) }, threads: 16 },
+            Phase { name: "cli_sequences", kind: PhaseKind::Gen { cases: (2000, 12000), tape_len: 1500, f: Box::new(cli_case) }, threads: 16 },
         ],
     }
 }
